@@ -222,6 +222,8 @@ def actualize(cin):
     out["feed"] = dict(cin["feed"], order=[f(s) for s in cin["feed"].get("order") or []])
     if "bind" in cin:
         out["bind"] = [[f(k), v] for k, v in cin["bind"]]
+    if cin.get("hist"):
+        out["hist"] = [[0, [f(s) for s in h[1]], [f(s) for s in h[2]]] if h[0] == 0 else h for h in cin["hist"]]
     if "psymkeys" in cin:
         out["psymkeys"] = [f(k) for k in cin["psymkeys"]]
     if "cfg" in cin:
@@ -287,20 +289,50 @@ def mk_reaction(rx, param, exact_half=False):
                     inact_prod=dict((k, v) for k, v in rx["iprod"]), **kw)
 
 
-def substances_for(cin):
-    """substance list of the system: plain keys, or Species objects carrying the phase index the
-    case asks for (sphase; 0 = plain)."""
-    ph = cin.get("sphase") or []
-    if any(ph):
-        from chempy.chemistry import Species
-        return [Species(s, phase_idx=int(p)) for s, p in zip(cin["subst"], ph)]
+def initial_subst(cin):
+    """the substance order the system is CONSTRUCTED with: a history entry <<0, old, new>> records a
+    later sort_substances_inplace()"""
+    for h in cin.get("hist") or []:
+        if h[0] == 0:
+            return list(h[1])
     return list(cin["subst"])
+
+
+def substances_for(cin):
+    """`substances` argument of ReactionSystem in the form the case asks for (cin["_sform"]):
+    list of keys (default) / Species objects with a phase index (sphase) / one space-separated
+    string / OrderedDict key -> Substance(key) / OrderedDict under ALIAS keys (Substance.name differs
+    from the key) / a set or None (the constructor sorts) / a list to be sorted by the constructor.
+    Returns (substances, extra constructor keywords)."""
+    from collections import OrderedDict
+    keys = initial_subst(cin)
+    ph = dict(zip(cin["subst"], cin.get("sphase") or []))
+    if any(ph.values()):
+        from chempy.chemistry import Species
+        return [Species(s, phase_idx=int(ph.get(s, 0))) for s in keys], {}
+    form = cin.get("_sform", "list")
+    if form == "str":
+        return " ".join(keys), {}
+    if form in ("odict", "alias"):
+        from chempy import Substance
+        pre = "n_" if form == "alias" else ""
+        return OrderedDict((s, Substance(pre + s)) for s in keys), {}
+    if form == "set":
+        return set(keys), {}
+    if form == "none":
+        return None, {}
+    if form == "sortlist":
+        return keys[::-1], {"sort_substances": True}
+    return keys, {}
 
 
 def mk_system(cin, params, substances=None):
     from chempy import ReactionSystem
     rxns = [mk_reaction(rx, p, exact_half=bool(cin.get("_exact_half"))) for rx, p in zip(cin["rxns"], params)]
-    return ReactionSystem(rxns, substances_for(cin) if substances is None else substances)
+    if substances is not None:
+        return ReactionSystem(rxns, substances)
+    subs, kw = substances_for(cin)
+    return ReactionSystem(rxns, subs, **kw)
 
 
 def initial_kvs(cin):
@@ -309,6 +341,8 @@ def initial_kvs(cin):
     kvs = [rx["kv"] for rx in cin["rxns"]]
     seen = set()
     for i, old, new in cin.get("hist") or []:
+        if i == 0:
+            continue
         if i not in seen:
             kvs[i - 1] = old
             seen.add(i)
@@ -320,9 +354,10 @@ def replay_history(rsys, cin, mk_param, touch):
     then observes the final state on the SAME objects."""
     for i, old, new in cin.get("hist") or []:
         guarded(touch)
-        rsys.rxns[i - 1].param = mk_param(i, new)
-    if cin.get("hist"):
-        pass
+        if i == 0:
+            rsys.sort_substances_inplace()
+        else:
+            rsys.rxns[i - 1].param = mk_param(i, new)
 
 
 def variables_for(cin, mode):
@@ -357,7 +392,8 @@ def cstr_arg(cin):
 
 
 def all_inputs(cin):
-    qs = list(cin["c"]) + [rx["kv"] for rx in cin["rxns"]] + [q for h in cin.get("hist") or [] for q in h[1:]]
+    qs = list(cin["c"]) + [rx["kv"] for rx in cin["rxns"]] + \
+        [q for h in cin.get("hist") or [] if h[0] != 0 for q in h[1:]]
     if cin["feed"]["on"]:
         qs += [cin["feed"]["F"]] + list(cin["feed"]["cf"])
     return qs
@@ -450,7 +486,18 @@ def observe_numeric(cin, mode, pform="plain", container="list", extras=False):
                 rsys, _container(list(law_of_mass_action_rates(clist, rsys, *extra)), container)))))
     if extras:
         # evaluating again gives the same, and the caller's variables are left alone
-        obs["rates_again"] = guarded(lambda: proj_dict(rsys.rates(v, substance_keys=subst, cstr_fr_fc=cs), subst))
+        def again():
+            first = rsys.rates(v, substance_keys=subst, cstr_fr_fc=cs)
+            first.clear()          # the caller edits the mapping it was given
+            return proj_dict(rsys.rates(v, substance_keys=subst, cstr_fr_fc=cs), subst)
+        obs["rates_again"] = guarded(again)
+        import numpy
+        import sympy
+        # the backend argument away from its default (unused by mass action with plain constants)
+        obs["rates_backend_np"] = guarded(lambda: proj_dict(
+            rsys.rates(v, numpy, substance_keys=subst, cstr_fr_fc=cs), subst))
+        obs["rates_backend_sympy"] = guarded(lambda: proj_dict(
+            rsys.rates(v, backend=sympy, substance_keys=subst, cstr_fr_fc=cs), subst))
         obs["frame"] = (v == v0)
         obs.update(("st_" + k, x) for k, x in stoich_tables(rsys, subst, cin["rxns"]).items())
         # explicitly passed rate expressions replace the constants (all / the odd-numbered ones)
@@ -463,6 +510,50 @@ def observe_numeric(cin, mode, pform="plain", container="list", extras=False):
                 obs["ov%s_rates" % pat] = guarded(lambda: proj_dict(
                     rsys.rates(v, substance_keys=subst, ratexs=rx, cstr_fr_fc=cs), subst))
     return unname_obs(obs, inv)
+
+
+def observe_vector(cin):
+    """Array-valued concentrations: every variable is a numpy array holding the state and the second
+    state of the case, so one call evaluates both.  Projects the two values per substance, whether
+    the caller's arrays were left alone (frame) and whether every returned array is an object of its
+    own - not one of the arguments, not shared between two substances (distinct)."""
+    import numpy as np
+    cin, inv = actualize(cin)
+    subst = list(cin["subst"])
+    mode = "float" if integral(all_inputs(cin) + list(cin["c2"])) else "frac"
+    dt = float if mode == "float" else object
+    params = [conv(kv, mode) for kv in initial_kvs(cin)]
+    rsys = guarded(mk_system, cin, params)
+    if is_raise(rsys):
+        return {"build": rsys}
+    v = variables_for(cin, mode)
+    for s, q1, q2 in zip(subst, cin["c"], cin["c2"]):
+        v[s] = np.array([conv(q1, mode), conv(q2, mode)], dtype=dt)
+    before = {k: (x.copy() if hasattr(x, "copy") else x) for k, x in v.items()}
+    cs = cstr_arg(cin)
+    replay_history(rsys, cin, lambda i, kv: conv(kv, mode), lambda: rsys.rates(v, substance_keys=subst))
+
+    def vec(d):
+        out = []
+        for s in subst:
+            x = d.get(s, 0)
+            x = np.broadcast_to(np.asarray(x, dtype=object), (2,)) if np.ndim(x) <= 1 else x
+            out.append(proj_seq(list(x)) if np.shape(x) == (2,) else {"shape": list(np.shape(x))})
+        return out
+    obs = {}
+
+    def run():
+        res = rsys.rates(v, substance_keys=subst, cstr_fr_fc=cs)
+        arrays = [x for x in res.values() if isinstance(x, np.ndarray)]
+        ids = [id(x) for x in arrays]
+        inputs = set(id(x) for x in v.values())
+        obs["vec_distinct"] = len(set(ids)) == len(ids) and not (set(ids) & inputs) and \
+            not any(np.shares_memory(a, b) for a in arrays for b in v.values() if isinstance(b, np.ndarray))
+        return vec(res)
+    obs["vec"] = guarded(run)
+    obs["vec_frame"] = all(np.array_equal(v[k], before[k]) if isinstance(before[k], np.ndarray) else v[k] == before[k]
+                           for k in before)
+    return obs
 
 
 def observe_selection(cin, mode, keys):
@@ -802,10 +893,11 @@ def build_odesys_full(cin):
     if cfg["comp"] or cfg.get("alias"):
         # alias: the substances are handed over under keys that differ from Substance.name
         pre = "n_" if cfg.get("alias") else ""
-        comps = cin["comp"] if cfg["comp"] else [None] * len(cin["subst"])
+        compof = dict(zip(cin["subst"], cin["comp"] if cfg["comp"] else [None] * len(cin["subst"])))
         substances = OrderedDict(
-            (s, Substance(pre + s, composition=None if comp is None else dict((int(k), int(v)) for k, v in comp)))
-            for s, comp in zip(cin["subst"], comps))
+            (s, Substance(pre + s, composition=None if compof[s] is None else
+                          dict((int(k), int(v)) for k, v in compof[s])))
+            for s in initial_subst(cin))
         from chempy import ReactionSystem
         rxns = [mk_reaction(rx, p) for rx, p in zip(cin["rxns"], params)]
         rsys = ReactionSystem(rxns, substances, dont_check={"balance"})
@@ -850,6 +942,16 @@ def build_odesys_full(cin):
         if cstr and cin["feed"].get("usermap"):
             # the caller's own (feed-ratio key, substance -> feed-concentration key) mapping
             cstr = (FEEDVAR, OrderedDict((s, fcvar(s)) for s in order))
+        if cfg.get("opts"):
+            # the remaining options in an explicit, neutral form: the default class passed by hand,
+            # substituted numbers given as floats
+            from pyodesys.symbolic import SymbolicSys
+            kw["SymbolicSys"] = SymbolicSys
+            subs = OrderedDict((k, float(x) if isinstance(x, int) else x) for k, x in subs.items())
+        if cfg.get("preother"):
+            # the same system object was first built the other way round
+            guarded(lambda: get_odesys(rsys, include_params=not cfg["incl"]))
+            guarded(lambda: _create_odesys(rsys))
         kw.update(include_params=cfg["incl"], substitutions=subs or None, cstr=cstr)
         if cfg.get("implicit"):
             # arguments equal to their documented default are left out
@@ -878,6 +980,13 @@ def build_odesys_full(cin):
     psyms = user_param_symbols(cin)
     if psyms is not None:
         kw["parameter_symbols"] = psyms
+    if cfg.get("opts"):
+        import sympy
+        from sym import Backend
+        from pyodesys.symbolic import SymbolicSys
+        kw.update(backend=Backend("sympy"), SymbolicSys=SymbolicSys, time_symbol=sympy.Symbol("tau"), symbolic_kw={})
+    if cfg.get("preother"):
+        guarded(lambda: get_odesys(rsys, include_params=False))
     before = param_signature(rsys)
     if cfg.get("rebuild"):
         _create_odesys(rsys, **kw)
@@ -904,6 +1013,8 @@ def observe_odesys(cin):
     psyms = user_param_symbols(cin) if create else None
     if psyms is not None:
         obs["paramseq"] = (pnames == list(psyms.keys()))
+    if create and cin["cfg"].get("opts"):
+        obs["indep"] = str(odesys.indep)
     if create:
         # which substance does the i-th dependent variable stand for?  user-made symbols are
         # identified by their name c_<substance>, default ones carry the substance key
@@ -938,7 +1049,7 @@ def observe_odesys(cin):
         obs["rvals"] = guarded(lambda: proj_seq(list(extra["rate_exprs_cb"](0.0, *yp(cin["c"])))))
     if cin.get("c2"):
         # the generated callbacks are called again: another state, then the first one once more
-        obs["f2"] = guarded(lambda: proj_seq(list(odesys.f_cb(0.0, *yp(cin["c2"])))))
+        obs["f2"] = guarded(lambda: proj_seq(list(odesys.f_cb(3.0, *yp(cin["c2"])))))   # and another time
         obs["f_again"] = guarded(lambda: proj_seq(list(odesys.f_cb(0.0, *yp(cin["c"])))))
         if "rate_exprs_cb" in extra:
             obs["rvals2"] = guarded(lambda: proj_seq(list(extra["rate_exprs_cb"](0.0, *yp(cin["c2"])))))
@@ -1019,6 +1130,8 @@ def gen_build_config(rng, n, substs=(), feed=False):
             if kinds[i] in ("str", "ma_fk", "ma_uk") and subs[i] in ("none", "num") and rng.random() < 0.7:
                 subs[i] = rng.choice(["expr", "expruk"])
     cfg["alias"] = builder == "create_odesys" and rng.random() < 0.3
+    cfg["opts"] = rng.random() < 0.3
+    cfg["preother"] = rng.random() < 0.2
     cfg["rebuild"] = rng.random() < 0.2
     cfg["implicit"] = rng.random() < 0.3
     if builder == "create_odesys":
@@ -1031,7 +1144,7 @@ def gen_build_config(rng, n, substs=(), feed=False):
 def default_pk_fields():
     return {"gsub": "none", "fsub": "none", "consts": [], "symorder": [],
             "gval": [1, 1], "gsubval": [1, 1], "gconst": [1, 1], "fsubval": [1, 1], "fconst": [1, 1],
-            "qval": [1, 1], "avals": [[1, 1]] * 8, "tvals": [[1, 1]] * 8, "alias": False, "pfull": False, "psym": "none", "symodict": False, "rebuild": False, "implicit": False}
+            "qval": [1, 1], "avals": [[1, 1]] * 8, "tvals": [[1, 1]] * 8, "alias": False, "opts": False, "preother": False, "pfull": False, "psym": "none", "symodict": False, "rebuild": False, "implicit": False}
 
 
 # ----------------------------------------------------------------------------- repository suite (code -> spec)
